@@ -199,3 +199,19 @@ func shardCase(c *shard.Ctx, name string, idx int64, desc interface{}) map[strin
 	json.Unmarshal(c.Args, &a)
 	return map[string]interface{}{"worker": name, "args": a, "index": idx, "tier": c.Tier, "desc": desc}
 }
+
+// pngNoise is a deterministic, practically incompressible PNG of w x h pixels.
+func pngNoise(w, h int, seed uint32) []byte {
+	im := image.NewRGBA(image.Rect(0, 0, w, h))
+	x := seed*2654435761 + 12345
+	for i := 0; i < len(im.Pix); i++ {
+		x = x*1664525 + 1013904223
+		im.Pix[i] = uint8(x >> 24)
+		if i%4 == 3 {
+			im.Pix[i] = 255
+		}
+	}
+	var b bytes.Buffer
+	png.Encode(&b, im)
+	return b.Bytes()
+}
